@@ -29,6 +29,7 @@ def _real_arraydecl(native):
 
 
 def register(reg):
+    register_structure(reg)
     fmt = Formatter("float64")
 
     # _build_initializer_lists is used modularly: its text never contains a storage-class keyword
@@ -40,8 +41,15 @@ def register(reg):
 
     reg.effects[Formatter._build_initializer_lists] = build_init
     VALS = OneOf(Const(None), Rec(Values, size=Int(1), shape=Const((3,))))
-    ARR = Rec(L.ArrayDecl, symbol=Enum(L.Symbol("FE0", L.DataType.REAL), L.Symbol("temp_0", L.DataType.SCALAR)),
-              sizes=Enum((3,), (40,), (2, 20)), values=VALS, const=Bool(), dtype=Const(L.DataType.REAL))
+    def mk_arr(interp, name):
+        """Built by the REAL constructor (interpreted), so every field the class sets exists and is consistent."""
+        sym = [L.Symbol("FE0", L.DataType.REAL), L.Symbol("temp_0", L.DataType.SCALAR)][interp.ctx.decide(2, "symbol")]
+        sizes = [(3,), (40,), (2, 20)][interp.ctx.decide(3, "sizes")]
+        vals = VALS.make(interp, name + ".values")
+        const = SV(z3.Bool(name + ".const"), "bool")
+        return interp.construct(L.ArrayDecl, [sym], dict(sizes=sizes, values=vals, const=const))
+
+    ARR = Custom(mk_arr)
     reg.add(Contract(
         F + "Formatter.__call__[ArrayDecl]", dict(self=Const(fmt), arr=ARR), fn=handler(L.ArrayDecl),
         requires=["implies(arr.values is None, not arr.const)",
@@ -55,3 +63,109 @@ def register(reg):
         ],
         properties=["C07"], modular=False, name="C.Formatter[ArrayDecl]",
         mutants=[('cstr = "static const " if arr.const else ""', 'cstr = "static const " if arr.const else "static "')]))
+
+
+def register_structure(reg):
+    """Structural contracts of the expression handlers of both formatters (premise of L-UNPARSE): the text is the operator
+    between the formatted children in order, each child optionally parenthesised, and the choice is fixed by the classes."""
+    import z3
+
+    from contracts import lnodes_shapes as S
+    from contracts import spec
+    from ffcx.codegeneration.numba.formatter import Formatter as NFormatter
+    from pyvc import models
+    from pyvc.contract import ListOf
+    from pyvc.values import SLazy, SObj, fresh_name
+
+    docf = z3.Function("doc", z3.IntSort(), z3.StringSort())
+
+    def uid_of(interp, x):
+        x = interp.resolve(x)
+        if isinstance(x, SObj) and isinstance(x.origin, SLazy):
+            return x.origin.uid
+        return x.uid if hasattr(x, "uid") else id(x)
+
+    fmts = {"C": Formatter("float64"), "numba": NFormatter("float64")}
+
+    def doc_effect(interp, fn, args, kwargs):
+        return SV(docf(z3.IntVal(uid_of(interp, args[-1]))), "str")
+
+    for f in fmts.values():
+        reg.effects[f] = doc_effect  # self(child) inside a handler: the child's text is an opaque atom
+    reg.effects[spec_doc] = doc_effect
+
+    def one_of(interp, fn, args, kwargs):
+        x, alts = args
+        zs = []
+        for a in alts:
+            z = models.as_bool_sv(interp, interp.compare(ast_eq(), x, a))
+            if z is True or (z is not False and z3.is_true(z3.simplify(z.z))):
+                return True
+            zs.append(z)
+        for z in zs:
+            if z is not False and interp.ctx.valid(z.z)[0] == "proved":
+                return True
+        interp.ctx.notes.append("one_of: no alternative is valid on this path")
+        return SV(z3.Bool(fresh_name("one_of_unproved")), "bool", havoc=True)
+
+    reg.effects[spec.one_of] = one_of
+
+    def node(cls, **fields):
+        def make(interp, name):
+            so = SObj(cls)
+            so.origin = types.SimpleNamespace(name=name)
+            for k, v in fields.items():
+                so.fields[k] = v(interp, f"{name}.{k}")
+            return so
+
+        return Custom(make)
+
+    LEX = S.lexpr
+    binops = [L.Add, L.Sub, L.Mul, L.Div, L.EQ, L.NE, L.LT, L.GT, L.LE, L.GE, L.And, L.Or]
+    for lang, Fcls, path in (("C", Formatter, "ffcx/codegeneration/C/formatter.py"), ("numba", NFormatter, "ffcx/codegeneration/numba/formatter.py")):
+        disp = Fcls.__dict__["__call__"].dispatcher
+        fmt = fmts[lang]
+        for P in binops:
+            h = disp.dispatch(P)
+            opt = "({'&&': 'and', '||': 'or'}[oper.op] if lang_numba and oper.op in ('&&', '||') else oper.op)"
+            reg.add(Contract(
+                f"{path}::Formatter.__call__[{P.__name__}]", dict(self=Const(fmt), oper=node(P, lhs=LEX, rhs=LEX)), fn=h,
+                ghosts=dict(lang_numba=Const(lang == "numba")),
+                ensures=[f"one_of(result, [wrap(doc(oper.lhs), a) + ' ' + {opt} + ' ' + wrap(doc(oper.rhs), b)"
+                         " for a in (False, True) for b in (False, True)])"],
+                properties=["C16", "C18"] if lang == "numba" else ["C16", "C19"], modular=False, name=f"{lang}.Formatter[{P.__name__}]",
+                max_paths=20000,
+                mutants=([("return f'{lhs} {oper.op} {rhs}'", "return f'{rhs} {oper.op} {lhs}'")] if (P is L.Sub and lang == "C") else [])))
+        for P, n in ((L.Sum, 2), (L.Product, 3)):
+            h = disp.dispatch(P)
+            reg.add(Contract(
+                f"{path}::Formatter.__call__[{P.__name__}]",
+                dict(self=Const(fmt), oper=node(P, args=lambda it, nm, n=n: [LEX(it, f"{nm}[{i}]") for i in range(n)])), fn=h,
+                ensures=[f"one_of(result, [(' ' + oper.op + ' ').join([wrap(doc(oper.args[i]), b[i]) for i in range({n})]) for b in bools({n})])"],
+                properties=["C16"], modular=False, name=f"{lang}.Formatter[{P.__name__}{n}]", max_paths=40000, bounded=f"{n} operands"))
+        for P in (L.Neg,) + ((L.Not,) if lang == "C" else ()):
+            h = disp.dispatch(P)
+            reg.add(Contract(
+                f"{path}::Formatter.__call__[{P.__name__}]", dict(self=Const(fmt), oper=node(P, arg=LEX)), fn=h,
+                ensures=["one_of(result, [oper.op + wrap(doc(oper.arg), a) for a in (False, True)])"],
+                properties=["C16"], modular=False, name=f"{lang}.Formatter[{P.__name__}]"))
+        h = disp.dispatch(L.Conditional)
+        ens = ("one_of(result, [wrap(doc(oper.condition), a) + ' ? ' + wrap(doc(oper.true), b) + ' : ' + wrap(doc(oper.false), c)"
+               " for a in (False, True) for b in (False, True) for c in (False, True)])") if lang == "C" else (
+            "one_of(result, ['(' + wrap(doc(oper.true), b) + ' if ' + wrap(doc(oper.condition), a) + ' else ' + wrap(doc(oper.false), c) + ')'"
+            " for a in (False, True) for b in (False, True) for c in (False, True)])")
+        reg.add(Contract(
+            f"{path}::Formatter.__call__[Conditional]", dict(self=Const(fmt), oper=node(L.Conditional, condition=LEX, true=LEX, false=LEX)),
+            fn=h, call=["self", "oper"], ensures=[ens], properties=["C16"], modular=False, name=f"{lang}.Formatter[Conditional]",
+            max_paths=40000))
+
+
+def spec_doc(x):
+    """Text of a child as the formatter prints it (natively: the real C formatter)."""
+    return Formatter("float64")(x)
+
+
+def ast_eq():
+    import ast
+
+    return ast.Eq()
